@@ -18,9 +18,11 @@ import (
 var rgHosts = []string{"", "", "example.com/", "registry.terraform.io/", "EXAMPLE.com/", "ex ample.com/", "テスト.example.com/"}
 var rgParts = []string{"ns", "hashicorp", "m0", "aws", "a-b", "a_b", "A", "é", "a.b", "", "a b", "-x"}
 var rgSubs = []string{"", "", "", "//sub", "//a/b", "//a/../b", "//.", "//a//b", "// a", "//a ", "//a@b", "//a\nb", "//a?b", "//a#b", "//%2e%2e", "//", "//é"}
-var rgVers = []string{"1.0.0", "1.2.3", "2.1.0-beta1", "1.2.3+build.7", "1.0", "v1.0.0", "", "x", "1.0.0 ", "1/0", "1.0.0@2"}
+// the first six are accepted by every parser; two of them carry upper-case letters in the pre-release / build
+// identifiers, which are case sensitive (seed C17-h: the version text lower-cased on the way in)
+var rgVers = []string{"1.0.0", "1.2.3", "2.1.0-beta1", "1.2.3+build.7", "1.0.0-RC1", "2.0.0-Beta.2+Build.7", "1.0", "v1.0.0", "V1.0.0", "1.0.0-rc1", "", "x", "1.0.0 ", "1/0", "1.0.0@2"}
 var rgWhole = []string{"./a", "../b", ".", "..", "", " ", "git::https://example.com/foo.git", "https://example.com/x.tgz//m", "github.com/org/repo",
-	"foo/bar/baz", "foo/bar/baz@1.0.0", "foo/bar/baz@1.0.0//m", "foo/bar/baz//m@1.0.0", "a@b@1.0.0", "foo/bar/baz@", "@1.0.0", "foo/bar/baz@1.0.0//", "foo/bar/baz@1.0.0//a@2.0.0//b",
+	"foo/bar/baz", "foo/bar/baz@1.0.0", "foo/bar/baz@1.0.0//m", "foo/bar/baz@1.0.0-RC1", "example.com/foo/bar/baz@2.0.0-Beta.2+Build.7//m", "foo/bar/baz//m@1.0.0", "a@b@1.0.0", "foo/bar/baz@", "@1.0.0", "foo/bar/baz@1.0.0//", "foo/bar/baz@1.0.0//a@2.0.0//b",
 	"example.com/foo/bar/baz//m?x=y", "foo/bar/baz?ref=1", "foo/bar/baz@1.0.0?x", "foo/bar\n/baz@1.0.0", "foo/bar/baz@1.0.0//a\nb", "foo/bar/baz@1.0.0\n", "foo/bar/baz ", " foo/bar/baz"}
 
 func genRegString(r *Rng) string {
@@ -41,7 +43,7 @@ func genRegString(r *Rng) string {
 	}
 	final := r.Chance(50)
 	if final {
-		s += "@" + pick(rgVers, 4)
+		s += "@" + pick(rgVers, 6)
 	}
 	if valid {
 		s += r.Pick([]string{"", "", "//sub", "//a/b", "//é", "//modules/vpc", "//a@b", "//a b", "//x y/z"})
@@ -106,7 +108,7 @@ func classifyDispatch(src interface{}, err error) string {
 
 func init() {
 	lanes["registry"] = func(cfg *Config, rep *Report) {
-		rep.Rule = "strings from a registry-address grammar (optional host incl. upper case / space / non-ASCII x three or four name parts incl. empty, spaces, non-ASCII x optional '@version' over 11 version texts x 17 sub-path shapes incl. '@', newline, white space at the edges, '?', escapes) + 26 whole-string shapes (local, remote, shorthand, several '@', '//' after the version twice) + 8% one-character mutations; non-trivial = contains '@' or '//'; distinct by string"
+		rep.Rule = "strings from a registry-address grammar (optional host incl. upper case / space / non-ASCII x three or four name parts incl. empty, spaces, non-ASCII x optional '@version' over 15 version texts (incl. pre-release / build identifiers with upper-case letters; the version text of an accepted final address must come back byte for byte) x 17 sub-path shapes incl. '@', newline, white space at the edges, '?', escapes) + 28 whole-string shapes (local, remote, shorthand, several '@', '//' after the version twice) + 8% one-character mutations; non-trivial = contains '@' or '//'; distinct by string"
 		r := NewRng(cfg.Seed)
 		seen := map[string]bool{}
 		var inputs []string
@@ -213,6 +215,9 @@ func init() {
 					out = append(out, "err")
 				} else {
 					out = append(out, "ok:"+X(rf.Package().String())+":"+X(rf.SelectedVersion().String())+":"+X(rf.SubPath()))
+					// the version text of a parsed final registry address round-trips byte for byte (C06; seed C17-h)
+					rep.Count("final:version-text-checked")
+					checkFinalVersionText(rep, "registry", "ParseFinalRegistrySource", s, rf, map[string]string{"input": s})
 				}
 			}()
 			func() {
